@@ -218,11 +218,10 @@ impl GhostV {
 // ------------------------------------------------------------------ total five-card contract
 // contract of <Five as HandRanker>::hand_rank_value_and_hand on five card-or-blank
 // slots with any repetition (proved by C05.five_safe + C03.five_identity):
-//   returns normally; value <= 7462; the hand is returned unchanged.
+//   returns normally with some value; the hand is returned unchanged.
 #[cfg(kani)]
 pub fn five_vh_total(f: &Five) -> (u16, Five) {
     let v: u16 = kani::any();
-    kani::assume(v <= 7462);
     (v, *f)
 }
 
